@@ -434,11 +434,20 @@ class EndProg:
         self.contline = line
 
 
-def next_statement(state: TokenizerState) -> Generator[TokenInfo, None, bool | None]:
+def next_statement(state: TokenizerState, readline: Callable[[], str]) -> Generator[TokenInfo, None, bool | None]:
     if not state.line:
         return False  # break parent loop
     column = alt_column = 0
+    continued: tuple[int, int] | None = None
     while state.pos < state.max:  # measure leading whitespace
+        if state.line.startswith(("\\\n", "\\\r\n"), state.pos):
+            # a backslash before any token: the indentation is measured across the joined lines, but blanks
+            # after a backslash that itself follows blanks do not count (as in CPython)
+            continued = continued or (column, alt_column)
+            state.move_next_line(readline)
+            if not state.line:
+                raise TokenError("EOF in multi-line statement", (state.lnum, 0))
+            continue
         if state.line[state.pos] == " ":
             column += 1
             alt_column += 1
@@ -450,6 +459,8 @@ def next_statement(state: TokenizerState) -> Generator[TokenInfo, None, bool | N
         else:
             break
         state.pos += 1
+    if continued and continued[0]:
+        column, alt_column = continued
 
     if state.pos == state.max:
         return False  # break parent loop
@@ -673,7 +684,7 @@ def _tokenize(readline: Callable[[], str]) -> Iterator[TokenInfo]:
             yield from handle_end_progs(state)
 
         elif state.parenlev == 0 and not state.continued:  # new statement
-            loop_action = yield from next_statement(state)
+            loop_action = yield from next_statement(state, readline)
             if loop_action is True:
                 state.blank_line = True
                 continue
